@@ -145,7 +145,20 @@ class KwOnlyNew(LookupError):
     super().__init__()
 
 
-USER = [(FalsyAttrs, ('falsy',)), (StopZero, (0,)), (QuotaError, ('disk', 3)), (KwOnlyNew, {'key': 'k1'}), (DeviceError, ('sda', 5, 'I/O error')), (BatchError, ([ValueError('a'), KeyError('b')], 'load', 3)),
+def make_job_error():
+  """A class made by a factory: every call gives a new class with the same module and qualified name."""
+  class JobError(RuntimeError):
+    def __init__(self, job, code):
+      super().__init__(job, code)
+      self.job, self.code = job, code
+  return JobError
+
+
+class _FactoryMade:
+  __name__ = 'FactoryMade'
+
+
+USER = [(_FactoryMade, ('nightly', 3)), (FalsyAttrs, ('falsy',)), (StopZero, (0,)), (QuotaError, ('disk', 3)), (KwOnlyNew, {'key': 'k1'}), (DeviceError, ('sda', 5, 'I/O error')), (BatchError, ([ValueError('a'), KeyError('b')], 'load', 3)),
         (NeedsArgs, (1, 'two')), (NeedsNewArgs, (404, 'nf')), (Slotted, ([1, 2],)), (CustomStr, ('m', {'k': 1})),
         (WithProperty, (21,))]
 
@@ -202,19 +215,20 @@ def all_cases():
 
 # a TypeError raised by the call itself because positional parameters were supplied by nobody: the message still
 # says which configurable, in which scope (a table on the real code)
-MISSING_CASES = [{'dom': 'exc', 'kind': 'missing', 'nargs': na, 'scope': sc, 'via': via, 'bound': bound}
+MISSING_CASES = [{'dom': 'exc', 'kind': 'missing', 'nargs': na, 'scope': sc, 'via': via, 'bound': bound, 'kwo': kwo}
                  for na in (0, 1) for sc in ('sc', 'sc/inner', '') for via in ('call', 'reference')
-                 for bound in (False, True)]
+                 for bound in (False, True) for kwo in (False, True)]
 
 
 def run_missing_case(case):
   gin = core.fresh_gin()
   g = {'__name__': 'em'}
-  exec('def needs(a, b, c=0):\n  return (a, b, c)\ndef consumer(v=None):\n  return v\n', g)  # pylint: disable=exec-used
+  kwo = bool(case.get('kwo'))     # a required keyword-only parameter besides (supplied: by the caller or by Gin)
+  exec(f'def needs(a, b, c=0{", *, unit" if kwo else ""}):\n  return (a, b, c)\ndef consumer(v=None):\n  return v\n', g)  # pylint: disable=exec-used
   n_args = case['nargs'] if case['via'] == 'call' else 0
   raw, orig_str, cls_facts = g['needs'], None, None
   try:
-    raw(*([1] * n_args))
+    raw(*([1] * n_args), **({'unit': 1} if kwo else {}))
   except TypeError as e0:     # what Python itself says about this call: the text Gin extends
     orig_str, cls_facts = str(e0), class_facts(e0)
   reprs = {'needs': repr(raw)}
@@ -229,10 +243,10 @@ def run_missing_case(case):
       if case['scope']:
         st.enter_context(gin.config_scope(case['scope']))
       if case['via'] == 'reference':
-        gin.parse_config('em.consumer.v = @em.needs()')
+        gin.parse_config('em.consumer.v = @em.needs()' + ('\nem.needs.unit = 1' if kwo else ''))
         consumer()
       else:
-        needs(*([1] * case['nargs']))
+        needs(*([1] * case['nargs']), **({'unit': 1} if kwo else {}))
     facts['raised'] = None
   except TypeError as e:
     s = str(e)
@@ -250,9 +264,11 @@ def run_missing_case(case):
 
 def missing_levels(case, impl):
   n_args = case['nargs'] if case['via'] == 'call' else 0
+  kwo, by_gin = bool(case.get('kwo')), case['via'] == 'reference'
   return [{'name': 'needs', 'repr': impl['reprs']['needs'], 'scope': case['scope'], 'posNames': ['a', 'b'], 'nArgs': n_args,
-           'kwNames': ['c'] if case['bound'] else [], 'ginBound': ['c'] if case['bound'] else [],
-           'callerSupplied': ['a', 'b'][:n_args], 'frames': []}]
+           'kwNames': (['c'] if case['bound'] else []) + (['unit'] if kwo else []),
+           'ginBound': (['c'] if case['bound'] else []) + (['unit'] if kwo and by_gin else []),
+           'callerSupplied': ['a', 'b'][:n_args] + (['unit'] if kwo and not by_gin else []), 'frames': []}]
 
 
 LEVEL_NAMES = ['leaf', 'mid', 'top', 'l4', 'l5', 'l6', 'l7', 'l8', 'l9']
@@ -268,6 +284,10 @@ def gen_cases(rng, tier, boost=1):
         yield dict(c, depth=depth, via=via)
     # raised by a configurable that is being run as the constructor of a gin.singleton
     yield dict(c, depth=1, via='singleton')
+    if c['cls'] == 'FactoryMade':
+      for depth in (1, 2, 3):
+        yield dict(c, depth=depth, via='call', twin=True)
+        yield dict(c, depth=depth, via='reference', twin=True)
     # longer call paths: any depth, helpers that enter a scope of their own before calling the next configurable,
     # parameters bound by Gin on some levels, the entry called with a keyword or positional argument
     for _ in range((1 if tier == 'quick' else 4) * boost):
@@ -278,12 +298,20 @@ def gen_cases(rng, tier, boost=1):
                  bind=sorted(rng.sample(range(depth), rng.randint(0, min(3, depth)))),
                  entry=rng.choice([None, None, 'kw', 'pos']) if via == 'call' else None,
                  req=[rng.choice([None, None, 'pos', 'kw', 'gin']) for k in range(depth - 1)] + [rng.choice([None, 'gin'])],
+                 # a required keyword-only parameter on some levels (supplied by the caller or by Gin)
+                 kwo=[rng.choice([None, None, 'kw', 'gin']) for k in range(depth - 1)] +
+                     [rng.choice([None, 'gin', 'kw'] if via == 'call' else [None, 'gin'])],
+                 # another exception, of a class with the same module and qualified name where the class comes from a
+                 # factory, went the same way just before
+                 twin=rng.random() < 0.4,
                  outer=rng.choice(['sc', 'sc', 'sc/inner', '']))
 
 
 def _make(case):
   if case['user']:
     cls, args = next((c, a) for c, a in USER if c.__name__ == case['cls'])
+    if cls is _FactoryMade:
+      cls = make_job_error()
   else:
     cls, args = next((c, a) for c, a in builtin_table() if c.__name__ == case['cls'])
   exc = cls(**args) if isinstance(args, dict) else cls(*args)
@@ -329,11 +357,14 @@ def run_impl(case):
   nest = case.get('nest') or [None] * depth
   names = LEVEL_NAMES[:depth]
   req = case.get('req') or [None] * depth
-  sig = lambda k, dflt: ('q, ' if req[k] else '') + f'{PARAMS[k]}={dflt}'   # a required positional parameter on some levels
+  kwo = case.get('kwo') or [None] * depth
+  sig = lambda k, dflt: (('q, ' if req[k] else '') + f'{PARAMS[k]}={dflt}' +      # noqa: E731  a required positional parameter
+                         (', *, unit' if kwo[k] else ''))                          # / keyword-only parameter on some levels
   src = f'def leaf({sig(0, 0)}):\n  raise EXC\n'
   for k in range(1, depth):
     inner, name = LEVEL_NAMES[k - 1], LEVEL_NAMES[k]
-    call = inner + {None: '()', 'gin': '()', 'pos': '(0)', 'kw': '(q=0)'}[req[k - 1]]
+    cargs = {None: [], 'gin': [], 'pos': ['0'], 'kw': ['q=0']}[req[k - 1]] + (['unit=1'] if kwo[k - 1] == 'kw' else [])
+    call = inner + '(' + ', '.join(cargs) + ')'
     # a plain (unconfigured) frame between two configurables; it may enter a scope of its own
     if nest[k]:
       src += f'def helper_{name}():\n  with gin.config_scope({nest[k]!r}):\n    return {call}\n'
@@ -350,6 +381,8 @@ def run_impl(case):
   for k in range(depth):
     if req[k] == 'gin':
       gin.bind_parameter(f'em.{LEVEL_NAMES[k]}.q', 0)
+    if kwo[k] == 'gin':
+      gin.bind_parameter(f'em.{LEVEL_NAMES[k]}.unit', 1)
   entry = names[-1]
   call_args, call_kwargs = (), {}
   if case['via'] == 'reference':
@@ -365,6 +398,8 @@ def run_impl(case):
       call_kwargs = {PARAMS[depth - 1]: 1}
     elif case.get('entry') == 'pos' and not req[depth - 1]:
       call_args = (1,)
+    if kwo[depth - 1] == 'kw':
+      call_kwargs['unit'] = 1
   orig = public_attrs(exc, gin)
   orig_str = None
   try:
@@ -381,6 +416,19 @@ def run_impl(case):
          'cls_facts': class_facts(exc)}
   outer = case.get('outer', 'sc')
   import contextlib
+  if case.get('twin'):
+    twin_cls, twin = _make(case)
+    del twin_cls
+    g['EXC'] = twin
+    try:
+      with (gin.config_scope(outer) if outer else contextlib.nullcontext()):
+        fn(*call_args, **call_kwargs)
+    except BaseException:  # pylint: disable=broad-except
+      pass
+    g['EXC'] = exc
+    exc.__traceback__ = None
+    if case['via'] == 'singleton':
+      gin.config._SINGLETONS.clear()  # pylint: disable=protected-access
   with (gin.config_scope(outer) if outer else contextlib.nullcontext()):
     try:
       fn(*call_args, **call_kwargs)
@@ -448,6 +496,11 @@ def levels_of(case, impl):
       kw, caller = ['q'] + kw, ['q'] + caller
     elif req[k] == 'gin':
       kw, gin_bound = ['q'] + kw, ['q'] + gin_bound
+    kwo_k = (case.get('kwo') or [None] * depth)[k]
+    if kwo_k == 'kw':
+      kw, caller = kw + ['unit'], caller + ['unit']
+    elif kwo_k == 'gin':
+      kw, gin_bound = kw + ['unit'], gin_bound + ['unit']
     out.append({'name': LEVEL_NAMES[k], 'repr': impl['reprs'][LEVEL_NAMES[k]], 'scope': _scope_of(case, k),
                 'posNames': ['q'] if req[k] else [],     # positional parameters without a default
                 'nArgs': n_args, 'kwNames': kw, 'ginBound': gin_bound, 'callerSupplied': caller,
